@@ -537,16 +537,91 @@ pub fn run(ctx: &Ctx, rep: &mut Report) {
     if ctx.wants("guard") {
         rep.absorb("guard", guard_parent(ctx));
     }
+    if ctx.only.as_deref() == Some("slab-child") {
+        slab_groups(ctx, rep);
+        return;
+    }
     if ctx.wants("slab") {
-        let n = ctx.tier.pick(300_000u64, 3_000_000);
-        rep.absorb(
-            "slab",
-            run_sharded("C12", "slab", ctx.seed, n, 32, slab_strategy, slab_check, slab_json, |_, m| slab_sig(m)),
+        // the slab groups run in a child process as well: a write past the end of the slab's
+        // buffer corrupts the heap, and the allocator's abort (or a fault) must neither be lost
+        // nor take the other sub-checks' results with it
+        slab_parent(ctx, rep);
+    }
+}
+
+fn slab_groups(ctx: &Ctx, rep: &mut Report) {
+    let n = ctx.tier.pick(300_000u64, 3_000_000);
+    rep.absorb(
+        "slab",
+        run_sharded("C12", "slab", ctx.seed, n, 32, slab_strategy, slab_check, slab_json, |_, m| slab_sig(m)),
+    );
+    rep.absorb(
+        "slab-anymap",
+        run_sharded("C12", "slab-anymap", ctx.seed, n / 3, 32, badmap_strategy, badmap_check, badmap_json, |_, m| slab_sig(m)),
+    );
+}
+
+/// Parent side of the slab groups: a child killed by a signal (SIGSEGV/SIGBUS: fault; SIGABRT:
+/// the allocator found its heap metadata overwritten) is a violation; the replay re-runs the
+/// groups with the same seed and tier, which are deterministic.
+fn slab_parent(ctx: &Ctx, rep: &mut Report) {
+    let started = Instant::now();
+    let exe = std::env::current_exe().expect("current_exe");
+    let partial = format!("{VERIF_DIR}/logs/C12-slab-partial.json");
+    let _ = std::fs::remove_file(&partial);
+    let status = std::process::Command::new(exe)
+        .args(["C12", "--tier", ctx.tier.name(), "--seed", &ctx.seed.to_string(), "--only", "slab-child", "--partial-out", &partial])
+        .stdout(std::process::Stdio::null())
+        .stderr(std::process::Stdio::null())
+        .status()
+        .expect("spawn slab child");
+    use std::os::unix::process::ExitStatusExt;
+    if let Some(sig) = status.signal() {
+        let mut st = Stats::new();
+        st.eval();
+        let case = json!({"seed": ctx.seed, "tier": ctx.tier.name()});
+        let f = simple_failure(
+            "slab-child",
+            format!("the process running the slab groups was killed by signal {sig} (fault, or heap metadata overwritten): a slab operation accessed memory outside the slab's buffer"),
+            "slab:child-signal".into(),
+            case,
         );
-        rep.absorb(
-            "slab-anymap",
-            run_sharded("C12", "slab-anymap", ctx.seed, n / 3, 32, badmap_strategy, badmap_check, badmap_json, |_, m| slab_sig(m)),
-        );
+        rep.absorb("slab", SubOutcome { stats: st, failures: vec![f], wall_s: started.elapsed().as_secs_f64() });
+        return;
+    }
+    let Ok(text) = std::fs::read_to_string(&partial) else {
+        let f = simple_failure("slab-child", format!("slab child exited with {status} and left no result"), "slab:child-lost".into(), Value::Null);
+        rep.absorb("slab", SubOutcome { stats: Stats::new(), failures: vec![f], wall_s: started.elapsed().as_secs_f64() });
+        return;
+    };
+    let v: Value = serde_json::from_str(&text).unwrap_or(Value::Null);
+    for sub in ["slab", "slab-anymap"] {
+        let mut st = Stats::new();
+        let sc = &v["sub_checks"][sub];
+        st.evals(sc["evaluations"].as_u64().unwrap_or(0));
+        st.nt_enumerated(sc["distinct_nontrivial"].as_u64().unwrap_or(0));
+        let prefix = format!("{sub}/");
+        if let Some(m) = v["classes"].as_object() {
+            for (k, n) in m {
+                if let Some(name) = k.strip_prefix(&prefix) {
+                    st.class_n(name, n.as_u64().unwrap_or(0));
+                }
+            }
+        }
+        let mut failures = vec![];
+        if let Some(a) = v["failures"].as_array() {
+            for f in a {
+                if f["sub"].as_str() == Some(sub) {
+                    failures.push(simple_failure(sub, f["message"].as_str().unwrap_or("").to_string(), f["signature"].as_str().unwrap_or("").to_string(), f["case"].clone()));
+                }
+            }
+        }
+        if let Some(a) = v["samples"].as_array() {
+            for smp in a.iter().filter(|x| x["sub"].as_str() == Some(sub)).take(3) {
+                st.samples.push(smp["case"].clone());
+            }
+        }
+        rep.absorb(sub, SubOutcome { stats: st, failures, wall_s: sc["wall_s"].as_f64().unwrap_or(0.0) });
     }
 }
 
@@ -554,6 +629,18 @@ pub fn replay(sub: &str, case: &Value) -> Result<(), String> {
     match sub {
         "slab" => slab_check(&slab_from(case), &mut Stats::new()),
         "slab-anymap" => badmap_check(&badmap_from(case), &mut Stats::new()),
+        "slab-child" => {
+            // re-run the slab groups in this process with the recorded seed and tier; if the
+            // violation reproduces this process dies by the same signal, which the driver reports
+            let tier = if case["tier"].as_str() == Some("thorough") { Tier::Thorough } else { Tier::Quick };
+            let ctx = Ctx { tier, seed: case["seed"].as_u64().unwrap_or(1), only: Some("slab-child".into()) };
+            let mut rep = Report::new("C12", tier, ctx.seed);
+            slab_groups(&ctx, &mut rep);
+            match rep.failures.first() {
+                Some(f) => Err(f.message.clone()),
+                None => Ok(()),
+            }
+        }
         "guard" => {
             // re-run the single case under the recorded placement; a fault kills this process,
             // which the driver reports as the violation reproducing
